@@ -4,7 +4,7 @@ correspondence engines with their quick/thorough case counts."""
 PROPS = {
     "C05": {
         "level_text": "Kernel-checked theorems over the Lean definitions regenerated from counts/counts.go on every run: Plus/Increment/NewCount32 are min(a+b,cap) for ALL operand pairs, overflow flag iff value = cap; correspondence of the generated definitions and the Nat specification with the Go functions on boundary-structured vectors; infinity-sign rendering checked through Format.",
-        "level_note": "Trusted: Lean kernel; tools/go2lean (validated by executing its output against the Go functions); Go compiler. `whole_run_saturates`: for every valid whole run all 22 numbers are clamp(cap, true Nat value) (model of graph.go, tied by the graph engine).",
+        "level_note": "Trusted: Lean kernel; tools/go2lean (validated by executing its output against the Go functions); Go compiler. `whole_run_saturates`: for every valid whole run all 22 numbers are clamp(cap, true Nat value) (model of graph.go, tied by the graph engine). `tree_work_linear`: over a whole run, in any delivery order, the listener cascade of the aggregator model performs at most as many iterations as the delivered trees have subtree entries (and the entry loop visits each stored entry once), independently of the expanded size — the linear-work clause at model level; wall-clock time itself is outside the model (the e2e engine checks the `Processing trees: N` count).",
         "technique": "Lean 4 proof over regenerated source + differential correspondence",
         "modules": ["GitSizer.Props.C05", "GitSizer.Props.T1"],
         "engines": [
